@@ -13,7 +13,21 @@ class Run(object):
         self.I, self.st, self.ret, self.flow, self.fi = I, st, ret, flow, fi
 
     def events(self, kind, fn=None):
-        return [e for e in self.I.events if e.kind == kind and (fn is None or e.fn == fn)]
+        """events of one kind; with `fn`, those that happen in that function -- or in code the pinned tree does not have (a helper, a method
+        of a carrier class introduced later) that runs on its behalf: entered from `fn` through functions that are all new"""
+        if fn is None:
+            return [e for e in self.I.events if e.kind == kind]
+        from .normalise import pinned
+        pin = pinned()
+
+        def on_behalf(e):
+            if e.fn == fn:
+                return True
+            if e.fn is None or e.fn in pin or not e.stack or fn not in e.stack:
+                return False
+            k = len(e.stack) - 1 - e.stack[::-1].index(fn)
+            return all(q not in pin for q in e.stack[k + 1:])
+        return [e for e in self.I.events if e.kind == kind and on_behalf(e)]
 
     def returns(self):
         return [v for v, _ in (self.flow.returns if self.flow else [])]
